@@ -183,7 +183,15 @@ def gen_i32(rng, big: bool) -> tuple[str, list[int], list[int]]:
             pool.append(cm)
         else:
             lb, ub, st = fresh("lb"), fresh("ub"), fresh("st")
-            lines.append(f"{ind}{lb} = arith.constant {rng.choice([0, 1])} : index")
+            read_bounds = rng.random() < 0.4      # the body also reads the loop bounds / the induction variable
+            if read_bounds and depth == 0 and rng.random() < 0.5:
+                m3, c3, c1 = fresh(), const(3), const(1)
+                lines.append(f"{ind}{m3} = arith.andi {rng.choice(vals)}, {c3} : i32")
+                lb1 = fresh()
+                lines.append(f"{ind}{lb1} = arith.addi {m3}, {c1} : i32")
+                lines.append(f"{ind}{lb} = arith.index_cast {lb1} : i32 to index")
+            else:
+                lines.append(f"{ind}{lb} = arith.constant {rng.choice([0, 1, 1, 2])} : index")
             if rng.random() < 0.3 and depth == 0:
                 m7, cc = fresh(), const(7)
                 lines.append(f"{ind}{m7} = arith.andi {rng.choice(vals)}, {cc} : i32")
@@ -194,7 +202,18 @@ def gen_i32(rng, big: bool) -> tuple[str, list[int], list[int]]:
             v, acc, iv = fresh(), fresh("acc"), fresh("i")
             lines.append(f"{ind}{v} = scf.for {iv} = {lb} to {ub} step {st} iter_args({acc} = {rng.choice(pool)}) -> (i32) {{")
             p1 = list(pool) + [acc]
+            if read_bounds:
+                for src in rng.sample([lb, iv, ub], rng.choice([1, 2])):
+                    bi = fresh()
+                    lines.append(f"{ind}  {bi} = arith.index_cast {src} : index to i32")
+                    s2 = fresh()
+                    lines.append(f"{ind}  {s2} = arith.addi {p1[-1]}, {bi} : i32")
+                    p1.append(s2)
             stmt(ind + "  ", p1, depth + 1)
+            if read_bounds:       # a temporary defined after the reads of the bounds
+                t2 = fresh()
+                lines.append(f"{ind}  {t2} = arith.xori {p1[-1]}, {acc} : i32")
+                p1.append(t2)
             lines.append(f"{ind}  scf.yield {p1[-1]} : i32")
             lines.append(f"{ind}}}")
             pool.append(v)
